@@ -377,6 +377,11 @@ func (c *Config) validateMetrics() error {
 		if c.Metrics.Path == "" {
 			return fmt.Errorf("metrics path is required when enabled")
 		}
+		// The metrics server also serves its own /health endpoint; registering the metrics handler
+		// under the same pattern makes http.ServeMux panic at start-up
+		if c.Metrics.Path == "/health" {
+			return fmt.Errorf("metrics path %q is reserved for the metrics server's health endpoint", c.Metrics.Path)
+		}
 	}
 	return nil
 }
